@@ -5,6 +5,7 @@ operator semantics of the statement) run beside every operator call, exhaustive
 over dimension-class pairs x operations x magnitude classes x operand shapes.
 """
 import itertools
+import random
 import math
 import operator
 
@@ -603,8 +604,57 @@ def check_blank_targets(ctx, order):
     ctx.count('blank_differing_targets_checked')
 
 
+def canon(x):
+    v, e, isq = unpack(x)
+    return repr((np.asarray(v, dtype=float).tolist(), e, isq))
+
+
+def check_threads(ctx, key=None, rounds=3):
+    """Arithmetic, comparison and conversion are functions of their operands:
+    the same operand objects combined by four threads at once give what they
+    give alone -- the same value and units, or the same UnitsError."""
+    from vmon.core import threads as TH
+    key = key or 'thr%d_%d' % (ctx.seed, ctx.shard)
+    r = random.Random('c11thr:%s' % key)
+    real_dims = [d for d in DIMS if d[1] is not None]
+    pairs = []
+    for _ in range(16):
+        da, db = r.choice(real_dims), r.choice(real_dims)
+        if r.random() < 0.4:
+            db = da
+        arr = r.random() < 0.3
+        pairs.append((da, db, arr, [r.uniform(-5, 5) for _ in range(3)],
+                      [r.uniform(0.1, 5) for _ in range(3)]))
+    ops = [('+', operator.add), ('-', operator.sub), ('*', operator.mul),
+           ('/', operator.truediv), ('<', operator.lt), ('==', operator.eq)]
+
+    def make_jobs():
+        jobs = []
+        for k, (da, db, arr, ma, mb) in enumerate(pairs):
+            A = make(ma, da, arr, route=k % len(ROUTES))
+            B = make(mb, db, arr)
+            for name, fn in ops:
+                def thunk(fn=fn, A=A, B=B):
+                    out = fn(A, B)
+                    if isinstance(out, (bool, np.bool_)):
+                        return repr(bool(out))
+                    if isinstance(out, np.ndarray) and out.dtype == bool:
+                        return repr(out.tolist())
+                    return canon(out)
+                jobs.append(((k, da[0], name, db[0]), thunk))
+            if not arr:
+                jobs.append(((k, da[0], 'in_units', db[1]),
+                             lambda A=A, u=db[1]: repr(float(A.in_units(u)))))
+        return jobs
+    res = TH.stress(make_jobs, nthreads=4, rounds=rounds)
+    TH.judge(ctx, res, 'quantity arithmetic on shared operands',
+             {'what': 'thread stress', 'key': key})
+
+
 def run_shard(ctx):
     i = 0
+    if ctx.shard % 4 == 2:
+        check_threads(ctx)
     if ctx.shard % 4 == 0:
         check_blank_targets(ctx, 1 if ctx.shard % 8 == 0 else -1)
     reps = 2 if ctx.tier == 'quick' else 8
@@ -628,6 +678,8 @@ def run_shard(ctx):
 
 
 def replay(ctx, case):
+    if case.get('what') == 'thread stress':
+        return check_threads(ctx, case['key'], rounds=12)
     da = [d for d in DIMS if d[0] == case['a'][0]][0]
     db = [d for d in DIMS if d[0] == case['b'][0]][0]
     check_pair(ctx, case.get('key', ['replay']), da, db, case['mclass'],
